@@ -16,7 +16,7 @@ import (
 // exponent overflow) cost microseconds.
 
 type c19Op struct {
-	Op string `json:"op"` // wait | reset | query
+	Op string `json:"op"` // wait | reset | query | set-cap | copy
 	N  int    `json:"n,omitempty"`
 }
 
@@ -225,11 +225,17 @@ func runC19(e *Engine, g G, o RunOpt) RunInfo {
 		nops = g.Range("nopslong", 200, 2000)
 	}
 	for i := 0; i < nops; i++ {
-		switch g.Weighted("op", 80, 5, 15) {
+		switch g.Weighted("op", 80, 5, 15, 2, 1) {
 		case 0:
 			sc.Ops = append(sc.Ops, c19Op{Op: "wait"})
 		case 1:
 			sc.Ops = append(sc.Ops, c19Op{Op: "reset"})
+		case 3:
+			// the settings are plain fields: an object in use may be given another cap ...
+			sc.Ops = append(sc.Ops, c19Op{Op: "set-cap", N: []int{100, 500, 1000, 5000, 60000, 300000, 86400000}[g.N("newcap", 7)]})
+		case 4:
+			// ... or be copied
+			sc.Ops = append(sc.Ops, c19Op{Op: "copy"})
 		default:
 			n := 0
 			switch g.N("qk", 3) {
@@ -283,6 +289,18 @@ func runC19(e *Engine, g G, o RunOpt) RunInfo {
 				b.Reset()
 				attempt = 0
 				prev = -1
+			case "set-cap":
+				if sc.Huge {
+					continue
+				}
+				b.SetCap(op.N)
+				effCap = op.N
+				// (a lower cap may lower the delays: the comparisons start afresh)
+				prev = -1
+				queried = map[int]time.Duration{}
+				e.Probe("c19.cap_changed_on_a_used_object")
+			case "copy":
+				b = b.Copy()
 			case "wait", "query":
 				n := attempt
 				var d time.Duration
